@@ -169,6 +169,10 @@ func (f *Formatter) formatComment(comments ast.Comments, sep string, level int) 
 			buf.WriteString(comments[i].String())
 		}
 		buf.WriteString(sep)
+		// Inline comments in a row are separated by a white space, like comments of neighboring nodes
+		if sep == "" && i < len(comments)-1 {
+			buf.WriteString(" ")
+		}
 	}
 
 	return buf.String()
